@@ -205,4 +205,13 @@ example : deep exSvcTy exSvcPlan = true ∧ covers exSvcTy exSvcPlan = true ∧
     (forEachService exSvcTy exSvcPlan exVisitProj "dependents" false ["web"] 5).log.map (·.1) = [5, 7, 5] := by
   decide +kernel
 
+/-- a history mixing visits and a derivation really runs on the project of `Props/C14Deriv.lean`: visit everything (one copy,
+cells 9–10), prune the unused resources (a project in cells 11–19), visit `web` of the result (cells 23–24) -/
+def exSvcTy2 : Ty := .ptr (.struct [(fNetworks, .map (.ptr .scalar))])
+def exSvcPlan2 : Plan := .newPtr (.fields [(fNetworks, .newMap (.newPtr .assign))])
+def exHist : List Step := [.visit "deps" [], .prog withoutUnnecessaryResources [], .visit "ignore" ["web"]]
+example : (∀ e ∈ exHist, e.rf = true) ∧ deep exSvcTy2 exSvcPlan2 = true ∧ covers exSvcTy2 exSvcPlan2 = true ∧
+    (runMixed exTy2 exPlan2 exSvcTy2 exSvcPlan2 exHist exProj 6).map addrs =
+      [[9, 10], [11, 16, 13, 14, 15, 17, 18, 19], [23, 24]] := by decide +kernel
+
 end CV.Heap.Visit
